@@ -11,3 +11,15 @@ def cntpos_same(w1, w2, n):
     """two weight vectors that are positive at the same positions have the same count of positive entries"""
     for s in range(0, n):
         pass
+
+
+def trh_bridge(g, w, d, s, n):
+    """np.sum of the element-wise array w / (w + s d^2) is the recursive spec sum trh"""
+    for t in range(0, n):
+        pass
+
+
+def wss_bridge(g, y, w, s, n):
+    """np.sum of the element-wise squared weighted residuals is the recursive spec sum wss"""
+    for t in range(0, n):
+        pass
